@@ -143,10 +143,14 @@ where
             Ok(edges) => {
                 let total_count = edges.len();
                 // self-loops are double-counted: https://en.wikipedia.org/wiki/Loop_(graph_theory)
-                let self_loops_count = edges
-                    .iter()
-                    .filter(|e| e.u == node_name && e.v == node_name)
-                    .count();
+                // (on a directed graph a self-loop is already listed twice, as in-edge and as out-edge)
+                let self_loops_count = match self.specs.directed {
+                    true => 0,
+                    false => edges
+                        .iter()
+                        .filter(|e| e.u == node_name && e.v == node_name)
+                        .count(),
+                };
                 Some(total_count + self_loops_count)
             }
         }
@@ -244,11 +248,15 @@ where
             Ok(edges) => {
                 let total_weight: f64 = edges.iter().map(|e| e.weight).sum();
                 // self-loops are double-counted: https://en.wikipedia.org/wiki/Loop_(graph_theory)
-                let self_loops_weight: f64 = edges
-                    .iter()
-                    .filter(|e| e.u == node_name && e.v == node_name)
-                    .map(|e| e.weight)
-                    .sum();
+                // (on a directed graph a self-loop is already listed twice, as in-edge and as out-edge)
+                let self_loops_weight: f64 = match self.specs.directed {
+                    true => 0.0,
+                    false => edges
+                        .iter()
+                        .filter(|e| e.u == node_name && e.v == node_name)
+                        .map(|e| e.weight)
+                        .sum(),
+                };
                 Some(total_weight + self_loops_weight)
             }
         }
